@@ -17,7 +17,7 @@ def run(ck):
                "rule, transport profile, schedule seed); distinct = full case description; non-trivial = at least one "
                "bad share or faulty server")
     i = 0
-    while not ck.out_of_time():
+    while ck.more(min_cases=150):
         i += 1
         if not ck.mine(i):
             continue
